@@ -200,6 +200,9 @@ type admCase struct {
 	Brokers  int
 	Shared   bool // one ClusterAdmin for all the calls of the case
 	Conc     int  // > 1: that many calls run concurrently on one ClusterAdmin (controller-bound operations only)
+	// PartialMeta: Metadata.Full = false, and the admin is built on a Client the application has used before
+	// (it looked up a topic that does not exist): refreshes only cover the topics that client tracks
+	PartialMeta bool
 	Calls    []*admCall
 }
 
@@ -464,6 +467,13 @@ func admCore(tier string) []admCase {
 				Calls: admControllerCalls(op, R, false, false)})
 		}
 	}
+	// Metadata.Full = false on a client that has looked up a missing topic before: controller refreshes are partial
+	for _, op := range admControllerOps {
+		for _, shared := range []bool{false, true} {
+			out = append(out, admCase{Name: fmt.Sprintf("ctl-partial/%s/R2/shared=%v", op, shared), Op: op, RetryMax: 2, Version: admDefaultVersion, Brokers: 3, Shared: shared, PartialMeta: true,
+				Calls: admControllerCalls(op, 2, false, false)})
+		}
+	}
 	// several goroutines call one ClusterAdmin while the controller moves under them
 	for _, op := range admControllerOps {
 		out = append(out, admCase{Name: fmt.Sprintf("ctl-conc/%s/R3", op), Op: op, RetryMax: 3, Version: admDefaultVersion, Brokers: 3, Shared: true, Conc: 4,
@@ -552,6 +562,7 @@ func admRandomCase(seed int64, idx int, tier string) admCase {
 	if cs.Shared && rng.Intn(3) == 0 {
 		cs.Conc = 2 + rng.Intn(3)
 	}
+	cs.PartialMeta = rng.Intn(6) == 0
 	n := 12
 	if tier == "thorough" {
 		n = 24
@@ -618,7 +629,7 @@ func admRandomCase(seed int64, idx int, tier string) admCase {
 			cs.Calls = append(cs.Calls, calls[rng.Intn(len(calls))])
 		}
 	}
-	cs.Name = fmt.Sprintf("rnd/%s/R%d/%s/B%d/shared=%v/conc=%d", op, cs.RetryMax, cs.Version, cs.Brokers, cs.Shared, cs.Conc)
+	cs.Name = fmt.Sprintf("rnd/%s/R%d/%s/B%d/shared=%v/conc=%d/partial=%v", op, cs.RetryMax, cs.Version, cs.Brokers, cs.Shared, cs.Conc, cs.PartialMeta)
 	return cs
 }
 
@@ -715,10 +726,26 @@ func (r *admRun) conf() *sarama.Config {
 	conf.Metadata.Retry.Backoff = time.Millisecond
 	conf.Metadata.Retry.Max = 3
 	conf.Metadata.RefreshFrequency = 0
+	if r.cs.PartialMeta {
+		conf.Metadata.Full = false
+	}
 	conf.Net.DialTimeout = 5 * time.Second
 	conf.Net.ReadTimeout = 10 * time.Second
 	conf.Net.WriteTimeout = 10 * time.Second
 	return conf
+}
+
+// newAdmin builds the ClusterAdmin of a case.
+func (r *admRun) newAdmin() (sarama.ClusterAdmin, error) {
+	if !r.cs.PartialMeta {
+		return sarama.NewClusterAdmin(r.sim.Addrs(), r.conf())
+	}
+	client, err := sarama.NewClient(r.sim.Addrs(), r.conf())
+	if err != nil {
+		return nil, err
+	}
+	_, _ = client.Partitions("never-created") // an earlier, unsuccessful lookup by the application
+	return sarama.NewClusterAdminFromClient(client)
 }
 
 func (r *admRun) nextBroker(cur int32) int32 { return cur%int32(r.cs.Brokers) + 1 }
@@ -865,7 +892,7 @@ func admRunCase(cs *admCase) proto.Rec {
 	r.sim.OnGroup = r.onGroup
 
 	if cs.Shared {
-		a, err := sarama.NewClusterAdmin(r.sim.Addrs(), r.conf())
+		a, err := r.newAdmin()
 		if err != nil {
 			rec.Verdict, rec.Why = "inconclusive", "admin client not created: "+err.Error()
 			return rec
@@ -1067,7 +1094,7 @@ func (r *admRun) doBatch(batch []*admCallRun) ([]map[string]interface{}, bool) {
 	}
 	admin := r.shared
 	if admin == nil {
-		a, err := sarama.NewClusterAdmin(r.sim.Addrs(), r.conf())
+		a, err := r.newAdmin()
 		if err != nil {
 			r.incon = "admin client not created: " + err.Error()
 			return []map[string]interface{}{{"call": batch[0].idx, "verdict": "inconclusive: " + r.incon}}, true
